@@ -26,8 +26,21 @@ def make_like_vec(c):
     return loglike
 
 
+def make_like_blob(c):
+    def loglike(x):
+        return -0.5 * float(np.sum((x - 1.0) ** 2) / 0.25) + c, float(x[0])
+    return loglike
+
+
 def run(c, seed, opts, n_total):
     o = dict(opts)
+    if o.get("blobs_dtype") is not None:
+        s = tempest.Sampler(prior, make_like_blob(c), n_dim=2, n_particles=o.pop("n_particles", 24), random_state=seed,
+                            output_dir=tempfile.mkdtemp(prefix="out_", dir=BASE), **o)
+        s.run(n_total=n_total, progress=False)
+        st = s.state
+        return dict(beta=np.array(st.get_history("beta")), logz=np.array(st.get_history("logz")), ess=np.array(st.get_history("ess")),
+                    u=st.get_history("u", flat=True), logl=st.get_history("logl", flat=True), final=s.evidence()[0], weights=None)
     vec = o.pop("vectorize", False)
     npart = o.pop("n_particles", 24)
     s = tempest.Sampler(prior, (make_like_vec if vec else make_like)(c), n_dim=2, n_particles=npart, vectorize=vec,
@@ -69,7 +82,8 @@ def main():
     tried = 0
     lattice = [dict(), dict(sample="rwm"), dict(resample="syst"), dict(clustering=False), dict(volume_variation=0.5),
                dict(sample="rwm", resample="syst", clustering=False), dict(vectorize=True), dict(cluster_every=2),
-               dict(volume_variation=0.03, n_particles=64), dict(volume_variation=0.1, n_particles=48, sample="rwm")]
+               dict(volume_variation=0.03, n_particles=64), dict(volume_variation=0.1, n_particles=48, sample="rwm"),
+               dict(blobs_dtype="float32"), dict(blobs_dtype="float64", resample="syst")]
     shifts = [3.0, -250.0, 1000.0, -1000.0]
     cwd = os.getcwd()
     os.chdir(tempfile.mkdtemp(prefix="cwd_", dir=BASE))
